@@ -2,7 +2,7 @@
 //!
 //! Sum of all individual transaction amounts in sequence transactions for reconciliation and validation.
 
-use super::swift_utils::parse_amount;
+use super::swift_utils::{format_swift_amount_min_decimals, parse_amount};
 use crate::traits::SwiftField;
 use serde::{Deserialize, Serialize};
 
@@ -35,14 +35,8 @@ impl SwiftField for Field19 {
     }
 
     fn to_swift_string(&self) -> String {
-        format!(":19:{}", format_swift_amount(self.amount))
+        format!(":19:{}", format_swift_amount_min_decimals(self.amount, 2))
     }
-}
-
-/// Format amount for SWIFT output with comma as decimal separator
-fn format_swift_amount(amount: f64) -> String {
-    let formatted = format!("{:.2}", amount);
-    formatted.replace('.', ",")
 }
 
 #[cfg(test)]
